@@ -144,7 +144,8 @@ def run(case):
             st_["raised2"] = 1
         structure_invariants(out, sub, sa, tag)
 
-    drive.run_history(sa, case, on_eval=on_eval, before_refine=before_refine, after_refine=after_refine)
+    kw = dict(recalculate_frequently=True) if case.get("recalc") else {}
+    drive.run_history(sa, case, on_eval=on_eval, before_refine=before_refine, after_refine=after_refine, **kw)
     out.nontrivial = st_["strict"] >= 1
     if st_["strict"]:
         out.cls("strict-subset-step")
@@ -158,7 +159,7 @@ def run(case):
         out.cls("lmax-raised")
     if st_.get("raised2"):
         out.cls("lmax-raised-by>=2-in-one-step")
-    out.cls(drive.scale_class(case), "dim_adaptive=%s" % case.get("dim_adaptive", True))
+    out.cls(drive.scale_class(case), "dim_adaptive=%s" % case.get("dim_adaptive", True), "recalculate_frequently=%s" % bool(case.get("recalc")))
     out.cls("version=%d" % case["version"], "mode=%d" % case["mode"])
     if case.get("legs"):
         out.cls("history-cut-into-%d-runs" % min(len(case["legs"]) + 1, 4))
@@ -172,6 +173,13 @@ def strategy(tier):
     @st.composite
     def s(draw):
         c = draw(drive.st_dw_case(tier=tier, scales=True))
+        if draw(st.integers(0, 5)) == 0:
+            # documented driver option (a restart of the evaluation every 100 refined objects): the selection of a step
+            # must not depend on it; histories with many refined intervals (uniform / broad steps) cross the 100 quickly
+            c["recalc"] = True
+            if draw(st.booleans()):
+                c.update(mode=draw(st.sampled_from([4, 4, 0, 7])), margin=draw(st.sampled_from([0.0, 0.5, 0.9])), maxsteps=draw(st.sampled_from([4, 5, 6])),
+                         dim=c["dim"], legs=None, rerun=None)
         if draw(st.integers(0, 4)) == 0:
             c["dim_adaptive"] = False       # documented option: one isotropic target level instead of a dimension-adaptive scheme
             # every raise lifts the level of the whole (standard) scheme: keep these histories short
